@@ -37,8 +37,10 @@ class Sys:
         self.w = common.indent_world()
         fitmod = self.w.modules["nanite.fit"]
         fitmod.obj2bytes = _structural_token
+        import types as _types
+        fitmod.hashlib = _types.SimpleNamespace(md5=Token)
         symlmfit.reset_stub()
-        symlmfit.MINIMIZE_POLICY[0] = _FunctionalOptimiser()
+        symlmfit.MINIMIZE_POLICY[0] = SemanticOptimiser()
         self.step_runs = common.install_abstract_steps(self.w)
         self.h = [real(f"h{i}") for i in range(N)]
         self.f = [real(f"f{i}") for i in range(N)]
@@ -58,27 +60,68 @@ class Sys:
         return P
 
 
+class Token:
+    """Stand-in for the md5 digest: the structured settings/data content
+    itself (the byte encoding is C12's subject).  Two tokens are equal iff
+    they have the same shape and semantically equal leaves."""
+
+    def __init__(self, tree):
+        self.tree = tree
+
+    def hexdigest(self):
+        return self
+
+    def eq_formula(self, other):
+        return _tree_eq(self.tree, other.tree)
+
+    def __eq__(self, other):
+        if not isinstance(other, Token):
+            return False
+        return core.decide(self.eq_formula(other))
+
+    def __ne__(self, other):
+        return not self.__eq__(other)
+
+    __hash__ = object.__hash__
+
+    def __repr__(self):
+        return "Token(%r)" % (self.tree,)
+
+
 def _structural_token(obj):
-    """obj2bytes stand-in: a structural token (the byte encoding is C12's
-    subject); equal tokens <=> structurally equal settings and identical
-    array terms."""
-    return repr(_tok(obj)).encode("utf-8")
+    return _tok(obj)
 
 
 def _tok(obj):
     if isinstance(obj, symnp.SymArr):
-        return ("arr", tuple(str(e) for e in obj.elems))
+        return ("arr", tuple(obj.elems))
     if isinstance(obj, symlmfit.Parameter):
-        return ("par", tuple(str(x) for x in obj.__getstate__()[:7]))
+        return ("par", tuple(obj.__getstate__()[:7]))
     if isinstance(obj, dict):
-        return ("dict", tuple(sorted((str(k), _tok(v)) for k, v in obj.items())))
+        return ("dict", tuple(sorted(((str(k), _tok(v)) for k, v in obj.items()), key=lambda kv: kv[0])))
     if isinstance(obj, (list, tuple)):
         return ("seq", tuple(_tok(x) for x in obj))
     if isinstance(obj, bool):
-        return ("num", str(float(obj)))
-    if isinstance(obj, (int, float, Fr)):
-        return ("num", str(Fr(obj) if not isinstance(obj, float) else core.nice_fraction(obj)))
-    return ("leaf", str(obj))
+        return ("num", int(obj))
+    if isinstance(obj, (int, float, Fr)) or core.is_sym(obj):
+        return ("num", obj)
+    return ("leaf", obj)
+
+
+def _tree_eq(a, b):
+    if isinstance(a, tuple) and isinstance(b, tuple):
+        if len(a) != len(b):
+            return False
+        return all_of([_tree_eq(x, y) for x, y in zip(a, b)])
+    if isinstance(a, tuple) or isinstance(b, tuple):
+        return False
+    if isinstance(a, (str, type(None))) or isinstance(b, (str, type(None))):
+        return a == b
+    if core.is_sym(a) or core.is_sym(b) or isinstance(a, (int, float, Fr)):
+        if core.is_nan(a) or core.is_nan(b):
+            return core.is_nan(a) and core.is_nan(b)
+        return same(a, b)
+    return a == b
 
 
 def raw_snapshot(idnt):
@@ -133,3 +176,35 @@ def reported(idnt):
     fp = idnt.fit_properties
     return (list(idnt.preprocessing), copy.deepcopy(idnt.preprocessing_options),
             copy.deepcopy(fp.get("preprocessing")), copy.deepcopy(fp.get("preprocessing_options")))
+
+
+
+class SemanticOptimiser:
+    """Functional optimiser stub whose result is an *uninterpreted function*
+    of the semantic content of its arguments: the sequence of (x, y) points
+    actually selected (folded with an uninterpreted cons, so a positional
+    selection and the equal dense array give equal terms under the path
+    condition), every parameter value, the weighting distance, the method and
+    the residual function.  Equal arguments => equal results by congruence;
+    different arguments => unconstrained."""
+
+    def __call__(self, rec, name, p):
+        x, y, wcp = rec["args"][:3]
+        X, Y = symnp.asarray(x), symnp.asarray(y)
+        h = Fr(0)
+        for ex, ey, pr in zip(X.elems, Y.elems, X._present_list()):
+            hx = core.sym_uf("cons", [h, ex, ey])
+            if pr is True:
+                h = hx
+            elif pr is not False:
+                h = core.sym_ite(pr, hx, h)
+        states = rec["params_state"]
+        args = [h] + [st[1] for st in states] + [wcp if not isinstance(wcp, bool) else int(wcp)]
+        flags = "".join("v" if st[2] else "f" for st in states)
+        fname = "opt_%s_%s_%s_%s" % (name, rec["method"], flags, id(rec["fcn"]))
+        v = core.sym_uf(fname, args)
+        if not core.is_inf(p.min):
+            core.assume(v >= p.min)
+        if not core.is_inf(p.max):
+            core.assume(v <= p.max)
+        return v
